@@ -156,7 +156,8 @@ PROPS["C05"] = {
             "another endpoint inside an open message, a counter wrap inside a message, trailing bytes, or a zero-length segment; "
             "distinct = distinct serialized cases"
             " One case in twenty runs on a long-lived decoder that has already delivered 1 / 2 / 4 MiB of segmented traffic."
-            " In one case in six the decoder is copied after some frame and the copy receives every later frame too; it must deliver what the reference model says.",
+            " In one case in six the decoder is copied after some frame and the copy receives every later frame too; it must deliver what the reference model says."
+            " In one case in twenty 60..1030 further endpoints on ONE stream id have a two-segment message in flight during the whole script (all must be delivered); start counters also lie next to 0x7FFF -> 0x8000.",
     "assumptions": COMMON_ASSUMPTIONS + ["expected deliveries are derived twice (from the script and from the byte-level reference "
                                          "reassembler); a disagreement between the two aborts as HARNESS-ERROR"],
     "level_text": "Model-based generated-input search: after every decode call the delivered packets must equal the reference "
@@ -190,7 +191,7 @@ PROPS["C17"] = {
         pbt("bounded_exhaustive", "pbt_C17", mode="enum", quick={}, thorough={"timeout": 7200}),
         pbt("random_histories", "pbt_C17", quick={"cases": 4500, "size": 100, "shards": 8},
             thorough={"cases": 10000, "size": 200, "shards": 16}),
-        cgf("coverage_guided", "pbt_C17", quick={"runs": 8000, "workers": 8}, thorough={"runs": 120000, "workers": 16}),
+        cgf("coverage_guided", "pbt_C17", quick={"runs": 3000, "workers": 8}, thorough={"runs": 120000, "workers": 16}),
     ],
 }
 
@@ -220,7 +221,8 @@ PROPS["C06"] = {
             "swap / move / corrupt-version / corrupt-message-type); plus exhaustively every single fault at every position of 40 "
             "(thorough 120) fixed base streams of <=12 frames (thorough: every pair on the first 14 of them); non-trivial when a fault hits a frame "
             "of a segmented message AND a complete message is delivered afterwards on that endpoint; distinct = distinct serialized cases"
-            " A third of the senders pad short frames up to a minimum frame size (40..100 bytes); one stream in ten has a chatty endpoint (30..1100 unsegmented frames of it between two consecutive frames of the others).",
+            " A third of the senders pad short frames up to a minimum frame size (40..100 bytes); one stream in ten has a chatty endpoint (30..1100 unsegmented frames of it between two consecutive frames of the others)."
+            " Start counters also lie next to 0x7FFF -> 0x8000.",
     "assumptions": COMMON_ASSUMPTIONS + ["payload bytes are unique per sent packet (packet id in the first bytes), so any mixture, hole or "
                                          "repetition matches no sent packet",
                                          "for a message one of whose frames had its version / message type corrupted only the payload bytes are "
@@ -459,7 +461,8 @@ PROPS["C19"] = {
             "after a common start barrier, in a TSan build and in an ASan build; non-trivial when >= 2 threads execute the same library "
             "component; distinct = distinct serialized cases"
             " A third of the cases copy-construct each thread's encoder / decoder / status tracker from prototypes with a history built on the main thread (a copy is a separate instance)."
-            " A quarter of the decoder workloads keep 60..1030 messages in progress at once.",
+            " A quarter of the decoder workloads keep 60..1030 messages in progress at once."
+            " A quarter of the encoder workloads never configure the ids (the defaults appear in every frame).",
     "assumptions": COMMON_ASSUMPTIONS + ["the harness does not own the scheduler: schedules are sampled, not enumerated; ThreadSanitizer's happens-before "
                                          "analysis reports an unsynchronised access to shared mutable state whenever both accesses execute in the run, "
                                          "largely independent of the actual interleaving",
